@@ -698,7 +698,9 @@ register("C04", title="exactly-once, in-order resume", pkg="./internal/api",
 register("C05", title="acknowledged messages survive crashes and fail-over", pkg=".",
          parts=[{"name": "main", "test": "^TestVerifC05A$", "children": {"quick": 6, "thorough": 16}, "cases": {"quick": 1, "thorough": 12}},
                 {"cluster": True, "children": {"quick": 2, "thorough": 8}, "cases": {"quick": 1, "thorough": 5},
-                 "race": {"quick": False, "thorough": True}, "timeout": {"quick": 500, "thorough": 2400}}],
+                 "race": {"quick": False, "thorough": True}, "timeout": {"quick": 500, "thorough": 2400}},
+                {"cluster": True, "cluster_args": ["-lag"], "children": {"quick": 1, "thorough": 3}, "cases": {"quick": 1, "thorough": 1},
+                 "race": {"quick": False, "thorough": False}, "timeout": {"quick": 900, "thorough": 1800}}],
          timeout={"quick": 600, "thorough": 3000}, level="fault_enumeration", parallel=8,
          rule="harness A: a child process runs an in-process node (real stores on a persistent directory, real FSM, single-voter raft, real API on a fixed "
               "loopback address); 3 senders post uniquely numbered PRIVMSGs with fresh client message ids and retry the same id until acknowledged, 2 "
